@@ -19,6 +19,9 @@ Lemma distribute_space_up_to_limits_t_threshold {T} `{Num T} :
 Proof. reflexivity. Qed.
 Lemma maximise_tracks_t_threshold {T} `{Num T} : maximise_tracks_t (T := T) threshold = maximise_tracks.
 Proof. reflexivity. Qed.
+Lemma distribute_item_space_to_base_size_t_threshold {T} `{Num T} :
+  distribute_item_space_to_base_size_t (T := T) threshold base_threshold = distribute_item_space_to_base_size.
+Proof. reflexivity. Qed.
 Lemma track_sizing_algorithm_t_threshold {T} `{Num T} : track_sizing_algorithm_t (T := T) threshold = track_sizing_algorithm.
 Proof. reflexivity. Qed.
 
@@ -431,6 +434,58 @@ Section GridHomog.
       cbn [fst snd] in D. destruct D as [_ D2]. apply rel_flush_incurred_to_base. exact D2.
   Qed.
 
+  (* ---- 11.5.1 distribute_item_space_to_base_size with both thresholds scaled along *)
+  Lemma rel_is_max_or_fit_content f f' : sfn_rel k f f' -> is_max_or_fit_content f' = is_max_or_fit_content f.
+  Proof. intros Hf. sfn_cases; reflexivity. Qed.
+  Lemma rel_set_base_planned t t' v v' : track_rel k t t' -> L v v' -> track_rel k (set_base_planned t v) (set_base_planned t' v').
+  Proof. unfold set_base_planned. intros Ht; intros; track_open Ht; unfold track_rel; track_fields; repeat split; assumption. Qed.
+
+  Lemma rel_distribute_item_inner tau tau' tau2 tau2' sp sp' ts ts' aff aff' pr pr' lim lim' ct :
+    L tau tau' -> L tau2 tau2' -> L sp sp' -> tracks_rel k ts ts' ->
+    affected_inv k aff aff' -> tfun_dl k pr pr' -> tfun_sc k lim lim' ->
+    tracks_rel k (distribute_item_space_to_base_size_inner_t tau tau2 sp ts aff pr lim ct)
+                 (distribute_item_space_to_base_size_inner_t tau' tau2' sp' ts' aff' pr' lim' ct).
+  Proof.
+    intros Htau Htau2 Hsp Hts Haff Hpr Hlim. unfold distribute_item_space_to_base_size_inner_t.
+    rewrite (sc_eqb k _ _ zero zero Hk Hsp (sc_zero k)), (rel_existsb (track_rel k) _ _ _ _ Haff Hts).
+    destruct ((sp =? zero)%num || negb (existsb aff ts))%bool; [exact Hts|].
+    assert (Hb : tfun_sc k base_size base_size) by (intros t t' Ht; track_open Ht; assumption).
+    assert (Hex : L (fmax zero (sp - fsum (map base_size ts))%num) (fmax zero (sp' - fsum (map base_size ts'))%num))
+      by (apply (sc_max k); [exact Hk | apply sc_zero | apply sc_sub; [exact Hsp | apply rel_base_sizes; exact Hts]]).
+    pose proof (distribute_space_up_to_limits_homog tau tau' Htau aff aff' pr pr' base_size base_size lim lim' Haff Hpr Hb Hlim _ _ _ _ Hex Hts) as D.
+    destruct (distribute_space_up_to_limits_t tau (fmax zero (sp - fsum (map base_size ts))%num) ts aff pr base_size lim) as [e1 t1],
+             (distribute_space_up_to_limits_t tau' (fmax zero (sp' - fsum (map base_size ts'))%num) ts' aff' pr' base_size lim') as [e1' t1'].
+    cbn [fst snd] in D. destruct D as [He1 Ht1].
+    apply (rel_map (track_rel k) (track_rel k)).
+    { intros t t' Ht. cbv zeta. track_open Ht. rewrite (sc_ltb k _ _ _ _ Hk Hbp Hinc).
+      apply rel_set_incurred; [|apply sc_zero]. destruct (ltb (base_planned t) (incurred t)); [apply rel_set_base_planned|]; assumption. }
+    rewrite (sc_ltb k _ _ _ _ Hk Htau2 He1). destruct (ltb tau2 e1); [|exact Ht1]. cbv zeta.
+    set (f1 := match ct with CMinimum => fun t : track XQ => is_intrinsic (maxf t)
+                           | CMaximum => fun t => (is_max_content (minf t) || is_max_or_fit_content (maxf t))%bool end).
+    assert (Hf1 : affected_inv k f1 f1).
+    { intros t t' Ht. track_open Ht. unfold f1. destruct ct;
+        [apply rel_is_intrinsic; assumption | rewrite (rel_is_max_content _ _ Hmin), (rel_is_max_or_fit_content _ _ Hmax); reflexivity]. }
+    assert (En : length (filter (fun t => (aff' t && f1 t)%bool) t1') = length (filter (fun t => (aff t && f1 t)%bool) t1)).
+    { apply (rel_length (track_rel k)). apply (rel_filter (track_rel k)); [|exact Ht1].
+      intros t t' Ht. rewrite (Haff _ _ Ht), (Hf1 _ _ Ht). reflexivity. }
+    rewrite En. set (n := length (filter (fun t => (aff t && f1 t)%bool) t1)).
+    assert (Hf2 : affected_inv k (match n with 0%nat => fun _ => true | S _ => f1 end) (match n with 0%nat => fun _ => true | S _ => f1 end))
+      by (destruct n; [intros ? ? ?; reflexivity | exact Hf1]).
+    apply (distribute_space_up_to_limits_homog tau tau' Htau _ _ pr pr' base_size base_size lim lim' Hf2 Hpr Hb Hlim); assumption.
+  Qed.
+
+  Theorem distribute_item_space_to_base_size_homog tau tau' tau2 tau2' flex uff sp sp' ts ts' aff aff' lim lim' ct :
+    L tau tau' -> L tau2 tau2' -> L sp sp' -> tracks_rel k ts ts' -> affected_inv k aff aff' -> tfun_sc k lim lim' ->
+    tracks_rel k (distribute_item_space_to_base_size_t tau tau2 flex uff sp ts aff lim ct)
+                 (distribute_item_space_to_base_size_t tau' tau2' flex uff sp' ts' aff' lim' ct).
+  Proof.
+    intros Htau Htau2 Hsp Hts Haff Hlim. unfold distribute_item_space_to_base_size_t.
+    assert (Hfl : affected_inv k (fun t => (is_flexible t && aff t)%bool) (fun t => (is_flexible t && aff' t)%bool))
+      by (intros t t' Ht; rewrite (rel_is_flexible _ _ Ht), (Haff _ _ Ht); reflexivity).
+    assert (H1 : tfun_dl k (fun _ => one) (fun _ => one)) by (intros ? ? ?; apply dl_one).
+    destruct flex; [destruct uff|]; apply rel_distribute_item_inner; try assumption. exact rel_flex_factor.
+  Qed.
+
   (* ---- 11.7.1 find_size_of_fr *)
   Lemma rel_flexible_at h h' t t' : L h h' -> track_rel k t t' -> flexible_at h' t' = flexible_at h t.
   Proof.
@@ -659,6 +714,24 @@ Proof. apply Forall2_self. intros [[s n] c]. split; cbn; [reflexivity | apply sc
 (* the real threshold at the scaled inputs corresponds to the threshold divided by k at the original inputs *)
 Lemma threshold_div_scale k : 0 < k -> sc k (Fin (DISTRIBUTE_THRESHOLD_Q / k)) (threshold (T := XQ)).
 Proof. intros Hk. unfold sc, threshold. cbn. field. lra. Qed.
+
+Lemma base_threshold_div_scale k : 0 < k -> sc k (Fin (BASE_SIZE_THRESHOLD_Q / k)) (base_threshold (T := XQ)).
+Proof. intros Hk. unfold sc, base_threshold. cbn. field. lra. Qed.
+
+Lemma distribute_item_space_to_base_size_scaled k flex uff sp ts aff aff' ct :
+  0 < k -> affected_inv k aff aff' ->
+  tracks_rel k (distribute_item_space_to_base_size_t (Fin (DISTRIBUTE_THRESHOLD_Q / k)) (Fin (BASE_SIZE_THRESHOLD_Q / k))
+                                                      flex uff sp ts aff growth_limit ct)
+               (distribute_item_space_to_base_size_t threshold base_threshold flex uff (x_scale k sp) (map (track_scale k) ts)
+                                                      aff' growth_limit ct).
+Proof.
+  intros Hk Haff. apply (distribute_item_space_to_base_size_homog k Hk); try assumption.
+  - apply threshold_div_scale; exact Hk.
+  - apply base_threshold_div_scale; exact Hk.
+  - apply sc_self.
+  - apply tracks_rel_scale.
+  - intros t t' Ht. track_open Ht. assumption.
+Qed.
 
 (* ------------------------------------------------------------------------------------------------------------ *)
 (** * With the real, fixed THRESHOLD the two kernels are NOT homogeneous (known finding grid-track-threshold-absolute) *)
